@@ -26,15 +26,15 @@ theorem cs_total_eq
   have mR := C02.site_spec_CS_Rayl T Z E error he hR
   have mC := C02.site_spec_CS_Compt T Z E error he hC
   unfold Gen.CS_Total Spec.CS_Total
-  rcases Meets.cases mP with ⟨p, hp, rp⟩ | ⟨hp, e, h1, h2, rp⟩
+  rcases Meets.cases mP with ⟨p, hp, rp⟩ | ⟨hp, e, h1, h2, rp⟩ | hany
   · have pp := (interp_exp_pos (by unfold Spec.CS_Photo at hp; exact hp)).ne'
     have gp := interp_value_guard (by unfold Spec.CS_Photo at hp; exact hp)
     simp only [zOk, Hdr.ZMAX, Bool.and_eq_true, decide_eq_true_eq] at gp
-    rcases Meets.cases mR with ⟨r, hr, rr⟩ | ⟨hr, e, h1, h2, rr⟩
+    rcases Meets.cases mR with ⟨r, hr, rr⟩ | ⟨hr, e, h1, h2, rr⟩ | hany
     · have rpos := (interp_exp_pos (by unfold Spec.CS_Rayl at hr; exact hr)).ne'
       have gr := interp_value_guard (by unfold Spec.CS_Rayl at hr; exact hr)
       simp only [zOk, Hdr.ZMAX, Bool.and_eq_true, decide_eq_true_eq] at gr
-      rcases Meets.cases mC with ⟨c, hc, rc⟩ | ⟨hc, e, h1, h2, rc⟩
+      rcases Meets.cases mC with ⟨c, hc, rc⟩ | ⟨hc, e, h1, h2, rc⟩ | hany
       · have cpos := (interp_exp_pos (by unfold Spec.CS_Compt at hc; exact hc)).ne'
         have gc := interp_value_guard (by unfold Spec.CS_Compt at hc; exact hc)
         simp only [zOk, Hdr.ZMAX, Bool.and_eq_true, decide_eq_true_eq] at gc
@@ -46,20 +46,22 @@ theorem cs_total_eq
         norm_num
         simp [rp, rr, rc, pp, rpos]
         xrl_finish
+      · exact absurd hany (by unfold Spec.CS_Compt; exact interp_ne_any)
     · simp only [hp, hr, add3, Meets, rd1, setErr_notFull he]
       norm_num
       simp [rp, rr, pp]
       xrl_finish
+    · exact absurd hany (by unfold Spec.CS_Rayl; exact interp_ne_any)
   · simp only [hp, add3, Meets, rd1, setErr_notFull he]
     norm_num
     simp [rp]
     xrl_finish
-
+  · exact absurd hany (by unfold Spec.CS_Photo; exact interp_ne_any)
 
 /-- the shape every `CSb_*` / `DCSb_*` function of cs_barns.c has (macro INIT): call the cm²/g twin, then the
 atomic weight, both through the caller's slot -/
 theorem barn_twin (f : Slot → M (ℝ × Slot)) (x : Expect ℝ)
-    (hf : Meets (f error) error x) (hpos : ∀ v, x = .value v → v ≠ 0) :
+    (hf : Meets (f error) error x) (hpos : ∀ v, x = .value v → v ≠ 0) (hna : x ≠ .any) :
     Meets (do
         let r_1 ← f error
         if deq r_1.1 (0.0 : ℝ) then pure ((0.0 : ℝ), r_1.2)
@@ -69,9 +71,9 @@ theorem barn_twin (f : Slot → M (ℝ × Slot)) (x : Expect ℝ)
           else pure (((r_1.1 * r_2.1) / (0.602214129 : ℝ)), r_2.2)) error
       (toBarn x (Spec.AtomicWeight T Z)) := by
   have mA := C01.lookup_spec_AtomicWeight T Z error he
-  rcases Meets.cases hf with ⟨v, hx, rf⟩ | ⟨hx, e, h1, h2, rf⟩
+  rcases Meets.cases hf with ⟨v, hx, rf⟩ | ⟨hx, e, h1, h2, rf⟩ | hany
   · have hv := hpos v hx
-    rcases Meets.cases mA with ⟨a, ha, ra⟩ | ⟨ha, e, h1, h2, ra⟩
+    rcases Meets.cases mA with ⟨a, ha, ra⟩ | ⟨ha, e, h1, h2, ra⟩ | hany
     · have apos : a ≠ 0 := by
         unfold Spec.AtomicWeight lookup1 at ha
         split_ifs at ha with hc
@@ -84,9 +86,11 @@ theorem barn_twin (f : Slot → M (ℝ × Slot)) (x : Expect ℝ)
       norm_num
       simp [hv, ra]
       xrl_finish
+    · exact absurd hany (by unfold Spec.AtomicWeight; exact lookup1_ne_any)
   · simp only [hx, rf, toBarn, Meets, bind_ok, pure_eq_ok]
     norm_num
     xrl_finish
+  · exact absurd hany hna
 
 theorem barn_twin_CSb_Total
     (hP : vecOkB (T.E_Photo_arr Z.toNat) (T.CS_Photo_arr Z.toNat) (T.CS_Photo_arr2 Z.toNat) (T.NE_Photo Z.toNat) = true)
@@ -94,38 +98,42 @@ theorem barn_twin_CSb_Total
     (hC : vecOkB (T.E_Compt_arr Z.toNat) (T.CS_Compt_arr Z.toNat) (T.CS_Compt_arr2 Z.toNat) (T.NE_Compt Z.toNat) = true) :
     Meets (Gen.CSb_Total T Z E error) error (Spec.CSb_Total T Z E) := by
   unfold Gen.CSb_Total Spec.CSb_Total
-  refine barn_twin T Z error he (Gen.CS_Total T Z E) _ (cs_total_eq T Z E error he hP hR hC) ?_
-  intro v hv
-  unfold Spec.CS_Total at hv
-  obtain ⟨p, r, c, h1, h2, h3, rfl⟩ := add3_eq_value hv
-  have := interp_exp_pos (by unfold Spec.CS_Photo at h1; exact h1)
-  have := interp_exp_pos (by unfold Spec.CS_Rayl at h2; exact h2)
-  have := interp_exp_pos (by unfold Spec.CS_Compt at h3; exact h3)
-  positivity
+  refine barn_twin T Z error he (Gen.CS_Total T Z E) _ (cs_total_eq T Z E error he hP hR hC) ?_ ?_
+  · intro v hv
+    unfold Spec.CS_Total at hv
+    obtain ⟨p, r, c, h1, h2, h3, rfl⟩ := add3_eq_value hv
+    have := interp_exp_pos (by unfold Spec.CS_Photo at h1; exact h1)
+    have := interp_exp_pos (by unfold Spec.CS_Rayl at h2; exact h2)
+    have := interp_exp_pos (by unfold Spec.CS_Compt at h3; exact h3)
+    positivity
+  · unfold Spec.CS_Total; exact add3_ne_any
 
 theorem barn_twin_CSb_Photo
     (hP : vecOkB (T.E_Photo_arr Z.toNat) (T.CS_Photo_arr Z.toNat) (T.CS_Photo_arr2 Z.toNat) (T.NE_Photo Z.toNat) = true) :
     Meets (Gen.CSb_Photo T Z E error) error (Spec.CSb_Photo T Z E) := by
   unfold Gen.CSb_Photo Spec.CSb_Photo
-  refine barn_twin T Z error he (Gen.CS_Photo T Z E) _ (C02.site_spec_CS_Photo T Z E error he hP) ?_
-  intro v hv
-  exact (interp_exp_pos (by unfold Spec.CS_Photo at hv; exact hv)).ne'
+  refine barn_twin T Z error he (Gen.CS_Photo T Z E) _ (C02.site_spec_CS_Photo T Z E error he hP) ?_ ?_
+  · intro v hv
+    exact (interp_exp_pos (by unfold Spec.CS_Photo at hv; exact hv)).ne'
+  · unfold Spec.CS_Photo; exact interp_ne_any
 
 theorem barn_twin_CSb_Rayl
     (hR : vecOkB (T.E_Rayl_arr Z.toNat) (T.CS_Rayl_arr Z.toNat) (T.CS_Rayl_arr2 Z.toNat) (T.NE_Rayl Z.toNat) = true) :
     Meets (Gen.CSb_Rayl T Z E error) error (Spec.CSb_Rayl T Z E) := by
   unfold Gen.CSb_Rayl Spec.CSb_Rayl
-  refine barn_twin T Z error he (Gen.CS_Rayl T Z E) _ (C02.site_spec_CS_Rayl T Z E error he hR) ?_
-  intro v hv
-  exact (interp_exp_pos (by unfold Spec.CS_Rayl at hv; exact hv)).ne'
+  refine barn_twin T Z error he (Gen.CS_Rayl T Z E) _ (C02.site_spec_CS_Rayl T Z E error he hR) ?_ ?_
+  · intro v hv
+    exact (interp_exp_pos (by unfold Spec.CS_Rayl at hv; exact hv)).ne'
+  · unfold Spec.CS_Rayl; exact interp_ne_any
 
 theorem barn_twin_CSb_Compt
     (hC : vecOkB (T.E_Compt_arr Z.toNat) (T.CS_Compt_arr Z.toNat) (T.CS_Compt_arr2 Z.toNat) (T.NE_Compt Z.toNat) = true) :
     Meets (Gen.CSb_Compt T Z E error) error (Spec.CSb_Compt T Z E) := by
   unfold Gen.CSb_Compt Spec.CSb_Compt
-  refine barn_twin T Z error he (Gen.CS_Compt T Z E) _ (C02.site_spec_CS_Compt T Z E error he hC) ?_
-  intro v hv
-  exact (interp_exp_pos (by unfold Spec.CS_Compt at hv; exact hv)).ne'
+  refine barn_twin T Z error he (Gen.CS_Compt T Z E) _ (C02.site_spec_CS_Compt T Z E error he hC) ?_ ?_
+  · intro v hv
+    exact (interp_exp_pos (by unfold Spec.CS_Compt at hv; exact hv)).ne'
+  · unfold Spec.CS_Compt; exact interp_ne_any
 
 end C05
 end Xrl
